@@ -291,7 +291,7 @@ pub fn c04(seed: u64, thorough: bool, tw: &mut TraceWriter) -> Cov {
                         // too small for a whole feed, truncated Feed replies are assembled while probes are in flight
                         if n >= 4 && master.random_range(0..2) == 0 {
                             cfg.pa = Some((cfg.period, 1));
-                            cfg.maxpkt = 30;
+                            cfg.maxpkt = 24;
                         }
                         (cfg.rtt / 2 + 10, (cfg.period - cfg.rtt) / 4 - 10)
                     };
